@@ -783,6 +783,12 @@ pub fn stop_poll(epoch: &Epoch) -> bool {
         // liveness: every command handed to the input thread completes while the search thread
         // makes a bounded amount of progress (the fair scheduler guarantees the input thread steps)
         s.global_polls += 1;
+        if s.input_thread == polling_thread {
+            // the input thread itself is searching (`bench`): that is the command making progress
+            if let Some(b) = &mut s.input_busy {
+                b.0 = s.global_polls;
+            }
+        }
         if let Some((since, line)) = &s.input_busy {
             // (a search that runs *on* the input thread — `bench` — is that command making progress)
             if s.global_polls > since + s.stop_liveness_bound && s.liveness_violation.is_none() && s.input_thread != polling_thread {
